@@ -118,6 +118,13 @@ Theorem C19_offset_page : forall (V : Type) (l : smap V) offset limit ct,
   POk (map snd (firstn (N.to_nat limit) (skipn (N.to_nat offset) l))) (key_at l (N.to_nat (offset + limit)))
       (if ct then Some (N.of_nat (length l)) else None).
 Proof. intros V. exact offset_page. Qed.
+(* ... and in reverse: the same page over the collection in descending key order *)
+Theorem C19_offset_page_reverse : forall (V : Type) (l : smap V) offset limit ct,
+  limit <> 0%N -> (offset + limit < two64)%N ->
+  paginate l {| pg_key := []; pg_offset := offset; pg_limit := limit; pg_count_total := ct; pg_reverse := true |} =
+  POk (map snd (firstn (N.to_nat limit) (skipn (N.to_nat offset) (rev l)))) (key_at (rev l) (N.to_nat (offset + limit)))
+      (if ct then Some (N.of_nat (length l)) else None).
+Proof. intros V. exact offset_page_reverse. Qed.
 Theorem C19_key_page : forall (V : Type) (l : smap V) key limit ct,
   limit <> 0%N -> key <> [] ->
   paginate l {| pg_key := key; pg_offset := 0; pg_limit := limit; pg_count_total := ct; pg_reverse := false |} =
@@ -169,6 +176,7 @@ Print Assumptions C19_single_item_queries.
 Print Assumptions C19_found_entry_is_the_one_stored.
 Print Assumptions C19_scalar_queries.
 Print Assumptions C19_offset_page.
+Print Assumptions C19_offset_page_reverse.
 Print Assumptions C19_key_page.
 Print Assumptions C19_pages_cover_key_mode.
 Print Assumptions C19_pages_cover_offset_mode.
